@@ -1020,22 +1020,52 @@ package query
 // GROUP BY first phase: a worker collects the keys of its own row range in maps and lists of its own and publishes them only
 // through the two slots of its own index; the key list of the result is assembled afterwards in worker order. (The key list
 // used to be appended by the racing workers under a mutex: the row order of the result changed from run to run; fix: 4b12ac4.)
+// C13: lock discipline. The ghost map mutexHeld records the mutexes the current activation holds (sync.Mutex Lock/Unlock:
+// assumed contracts; the Go memory model makes critical sections of one mutex ordered). The error slot and the counters
+// of the goroutine managers may be read or written only while their mutex is held.
+//@ ghost var mutexHeld map[int]bool
+//@ func (*sync.Mutex).Lock
+//@   trusted assumed: acquires the mutex (blocks until it is free)
+//@   ensures mutexHeld == store(old(mutexHeld), m, true)
+//@   modifies mutexHeld
+//@ func (*sync.Mutex).Unlock
+//@   trusted assumed: releases the mutex
+//@   ensures mutexHeld == store(old(mutexHeld), m, false)
+//@   modifies mutexHeld
 //@ func (*GoroutineTaskManager).HasError
-//@   trusted assumed: reads the error slot of the manager
-//@   modifies nothing
+//@   property C13
+//@   guarded F:query.GoroutineTaskManager.err# by mutexHeld[m.grTaskMutex]
+//@   modifies mutexHeld
+//@ func (*GoroutineTaskManager).Err
+//@   property C13
+//@   guarded F:query.GoroutineTaskManager.err# by mutexHeld[m.grTaskMutex]
+//@   modifies mutexHeld
 //@ func (*GoroutineTaskManager).SetError
-//@   trusted assumed: stores the first error under the manager's mutex; touches only the manager
-//@   modifies m
+//@   property C13
+//@   guarded F:query.GoroutineTaskManager.err# by mutexHeld[m.grTaskMutex]
+//@   modifies m, mutexHeld
+//@ func (*GoroutineManager).AssignRoutineNumber
+//@   property C13
+//@   guarded F:query.GoroutineManager.Count# by mutexHeld[m.CountMutex]
+//@   modifies m, mutexHeld
+//@ func (*GoroutineManager).Release
+//@   property C13
+//@   guarded F:query.GoroutineManager.Count# by mutexHeld[m.CountMutex]
+//@   modifies m, mutexHeld
 //@ func (*GoroutineTaskManager).Done
 //@   trusted assumed: wait-group bookkeeping of the manager
 //@   modifies m
+// pooled key buffers: exclusive to the caller between Get and Put (ghost count of buffers this activation holds); reading
+// a buffer after it went back to the pool races with the next owner
+//@ ghost var keyBufsOut int
 //@ func GetComparisonKeysBuf
 //@   trusted assumed: takes a key buffer from the sync.Pool (exclusive to the caller until it is put back)
-//@   ensures result != nil
-//@   modifies nothing
+//@   ensures result != nil && keyBufsOut == old(keyBufsOut) + 1
+//@   modifies keyBufsOut
 //@ func PutComparisonkeysBuf
 //@   trusted assumed: resets the buffer and returns it to the pool; touches only the buffer
-//@   modifies nothing
+//@   ensures keyBufsOut == old(keyBufsOut) - 1
+//@   modifies keyBufsOut
 //@ func SerializeComparisonKeys
 //@   trusted assumed frame: writes only the key buffer (its conversions' temporaries go back to the value pool)
 //@   modifies nothing
@@ -1046,6 +1076,9 @@ package query
 //@   ensures [other-workers-slots-untouched] forall(k, 0, len(groupsList), k != thIdx ==> groupsList[k] == old(groupsList[k]))
 //@   ensures [other-workers-key-lists-untouched] forall(k, 0, len(groupKeysList), k != thIdx ==> same(groupKeysList[k], old(groupKeysList[k])))
 //@   ownwrites C: MD: ML: MV: E:string#
+//@   loop 1 invariant keyBufsOut == old(keyBufsOut)
+//@   loop 2 invariant keyBufsOut == old(keyBufsOut)
+//@   assert after call (*bytes.Buffer).String#*: [key-read-while-the-buffer-is-held] keyBufsOut == old(keyBufsOut) + 1
 //@   modifies *
 
 //@ func (*View).group$2
@@ -1200,3 +1233,23 @@ package query
 //@   loop 2 modifies fields[*]
 //@   loop 3 invariant lineBreaksEnclosed(fields) && len(fields) == len(view.Header)
 //@   loop 3 modifies fields[*]
+
+// ---------------------------------------------------------------------------------------------
+// C12 / C13: outer join. A worker marks right-hand rows it matched in a flag list of its own and publishes its rows and
+// its flags only through the slots of its own index; afterwards a right-hand row is appended as unmatched only if no
+// worker flagged it.
+//@ func OuterJoin$2
+//@   property C12 C13
+//@   requires 0 <= thIdx && thIdx < len(recordsList) && thIdx < len(joinViewMatchesList)
+//@   requires gm != nil && gm.Number >= 1 && gm.recordLen >= 0 && thIdx < gm.Number
+//@   ownwrites C: E:bool#0 MD: ML: MV:
+//@   modifies *
+
+//@ spec def unmatchedByAll(ml [][]bool, idx int) bool = forall(k, 0, len(ml), !ml[k][idx])
+//@ func OuterJoin
+//@   property C12
+//@   loop 2 invariant forall(q, 0, len(appendIndices), unmatchedByAll(joinViewMatchesList, appendIndices[q]))
+//@   loop 3 invariant !match ==> forall(k, 0, $i, !joinViewMatchesList[k][i])
+//@   loop 3 invariant forall(q, 0, len(appendIndices), unmatchedByAll(joinViewMatchesList, appendIndices[q]))
+//@   loop 3 modifies nothing
+//@   modifies *
